@@ -233,6 +233,8 @@ def gen_utilities(rng, streams):
 
 def gen_e2e(rng):
     streams = gen_streams(rng)
+    # (options are not part of this model: the option sanitiser -- e.g. a non-positive DT_PHASE_CHANGE is replaced -- is modelled and
+    #  checked by C14's cfg suite)
     return dict(streams=streams, utilities=gen_utilities(rng, streams))
 
 
